@@ -316,23 +316,24 @@ func rsJustifies(vals *gtypes.ValidatorSet, id gtypes.BlockID, height int64, c *
 // the altered content) or inconsistent (content changed under the genuine header hash).
 var rsKinds = []string{
 	"genuine",
-	"txs",               // other transactions, DataHash/NumTxs recomputed (self-consistent; keeps LastBlockID, LastCommit, AppHash)
-	"txs-raw",           // other transactions under the genuine header (header hash unchanged)
-	"extra",             // bytes in Header.Extra (not covered by the header hash)
-	"commit-blockid",    // LastCommit.BlockID changed (not covered by LastCommitHash)
-	"apphash",           // header field altered
-	"time",              // header field altered
-	"valhash",           // header field altered
-	"height-field",      // the block of the next height with the height field rewritten
-	"other-height",      // the genuine block of a neighbouring height
-	"lastcommit-other",  // LastCommit of another height, hash recomputed
-	"lastcommit-thin",   // genuine precommits removed until no more than 2/3 of the power is left
-	"lastcommit-nil",    // no LastCommit
-	"data-nil",          // no Data
-	"unsigned-fields",   // precommits with altered validator index/address (fields no signature covers)
-	"on-forged",         // block built on the forged ("txs") predecessor, LastCommit signed by the attackers in their slots
-	"on-forged-repeat",  // the same with ONE attacker precommit repeated in every slot
-	"on-genuine-repeat", // genuine predecessor, LastCommit is one genuine precommit repeated in every slot
+	"txs",                // other transactions, DataHash/NumTxs recomputed (self-consistent; keeps LastBlockID, LastCommit, AppHash)
+	"txs-raw",            // other transactions under the genuine header (header hash unchanged)
+	"extra",              // bytes in Header.Extra (not covered by the header hash)
+	"commit-blockid",     // LastCommit.BlockID changed (not covered by LastCommitHash)
+	"apphash",            // header field altered
+	"time",               // header field altered
+	"valhash",            // header field altered
+	"height-field",       // the block of the next height with the height field rewritten
+	"other-height",       // the genuine block of a neighbouring height
+	"lastcommit-other",   // LastCommit of another height, hash recomputed
+	"lastcommit-thin",    // genuine precommits removed until no more than 2/3 of the power is left
+	"lastcommit-nil",     // no LastCommit
+	"data-nil",           // no Data
+	"unsigned-fields",    // precommits with altered validator index/address (fields no signature covers)
+	"on-forged",          // block built on the forged ("txs") predecessor, LastCommit signed by the attackers in their slots
+	"on-forged-repeat",   // the same with ONE attacker precommit repeated in every slot
+	"on-genuine-repeat",  // genuine predecessor, LastCommit is one genuine precommit repeated in every slot
+	"on-forged-prevotes", // forged predecessor, "LastCommit" = the validly signed PREVOTES of all validators for it (a block that had a polka in some round and was not committed)
 }
 
 func rsGenuineKind(kind string) bool { return kind == "genuine" || kind == "other-height" }
@@ -459,7 +460,7 @@ func (c *rsChain) variant(kind string, g int64, arg int, attackers []int) *gtype
 			}
 		}
 		rehashCommit()
-	case "on-forged", "on-forged-repeat", "on-genuine-repeat":
+	case "on-forged", "on-forged-repeat", "on-genuine-repeat", "on-forged-prevotes":
 		if g < 2 {
 			return nil
 		}
@@ -483,6 +484,18 @@ func (c *rsChain) variant(kind string, g int64, arg int, attackers []int) *gtype
 			one = sim.SignVote(att[(arg%len(att)+len(att))%len(att)], vals, g-1, 0, gtypes.VoteTypePrecommit, prevID)
 		}
 		switch {
+		case kind == "on-forged-prevotes":
+			// honest validators do prevote a block that is then not committed (the polka came too
+			// late, another block is decided in a later round): such votes are public and correctly
+			// signed by everybody - but they are no commit
+			lc = &gtypes.Commit{BlockID: prevID, Precommits: make([]*gtypes.Vote, vals.Size())}
+			for i, v := range vals.Validators {
+				for id := 0; id < 16; id++ {
+					if string(sim.Key(id).PubKey().Address()) == string(v.Address) {
+						lc.Precommits[i] = sim.SignVote(id, vals, g-1, 0, gtypes.VoteTypePrevote, prevID)
+					}
+				}
+			}
 		case kind == "on-forged":
 			lc = rsCommit(vals, g-1, prevID, att)
 		case one == nil:
